@@ -19,6 +19,7 @@ from __future__ import annotations
 
 import dataclasses
 import json
+import types
 import typing
 
 from harness import inputs, progs, tl
@@ -233,6 +234,25 @@ def member_instances(spec, wire, mat):
     return None
 
 
+_ROWS = {}
+
+
+def row_sources(members):
+    """instances of structured classes (dataclass, NamedTuple, annotated plain class, slots-only class) whose public fields,
+    in declaration order, hold `members`: what serdes.itervalues documents as 'the contained values of any object'"""
+    n = len(members)
+    if n not in _ROWS:
+        names = [f"f{i}" for i in range(n)]
+        DC = dataclasses.make_dataclass(f"RowDC{n}", [(a, typing.Any) for a in names])
+        NT = typing.NamedTuple(f"RowNT{n}", [(a, typing.Any) for a in names])
+        ns = {"__annotations__": {a: typing.Any for a in names}}
+        exec("def __init__(self, *a):\n" + "".join(f"    self.{a} = a[{i}]\n" for i, a in enumerate(names)), ns)  # noqa: S102
+        PC = type(f"RowPlain{n}", (), dict(ns))
+        SL = type(f"RowSlots{n}", (), {"__slots__": tuple(names), "__init__": ns["__init__"]})
+        _ROWS[n] = {"dataclass-instance": DC, "namedtuple-instance": NT, "plain-class-instance": PC, "slots-instance": SL}
+    return {name: cls(*members) for name, cls in _ROWS[n].items()}
+
+
 JUNK_MEMBER = ["object()", "'not-valid-\\x00'", "[[['x']]]", "{'zz': object()}", "1j", "b'\\xff\\xfe'"]
 
 
@@ -277,6 +297,31 @@ def check_node(p, node, col, feats):
                           f"node {path} ({mat.expr(spec_n, None)}) with structured members given as instances holding wire values: "
                           f"library {describe(lib)}; rebuilt from member routines {describe(ref)}",
                           bucket=f"member-instances|{spec_n['k']}|{diff_bucket(lib[1], ref[1]) if lib[0] == ref[0] == 'ok' else lib[0] + '/' + ref[0]}"[:90])
+    # ---- the members of a collection / tuple handed over as the fields of a structured instance (serdes.itervalues: "the
+    #      contained values for any object"): converts like the plain list of the same members; the members are wire values,
+    #      instances of their own class, or (marshal side) the values themselves
+    if spec_n["k"] in ("list", "deque", "vtuple", "tuple", "set", "frozenset") and isinstance(wire, list) and 1 <= len(wire) <= 6:
+        variants = [("unmarshal", "wire", list(wire))]
+        if inst is not None:
+            variants.append(("unmarshal", "instances", list(inst)))
+        if spec_n["k"] in ("list", "deque", "vtuple", "tuple"):
+            variants.append(("marshal", "values", list(value)))
+        for direction, what, members in variants:
+            call = (lambda x: tl.unmarshal(T_n, x)) if direction == "unmarshal" else (lambda x: tl.marshal(x, t=T_n))
+            tl.clear_all()
+            base = outcome(call, list(members))
+            for name, src in row_sources(members).items():
+                col.ev()
+                col.label(f"row-source:{direction}:{name}")
+                if nontriv:
+                    col.nt(p.key + path + "row" + direction + what + name)
+                tl.clear_all()
+                o = outcome(call, src)
+                if not same_outcome(o, base):
+                    col.violation("source-shapes-agree", dict(case_base, shape=name, direction=direction, members=what),
+                                  f"node {path} ({mat.expr(spec_n, None)}) {direction}: members ({what}) given as a list {describe(base)}; "
+                                  f"as the fields of a {name} {describe(o)}",
+                                  bucket=f"row|{direction}|{name}|{what}|{o[0]}/{base[0]}")
     # ---- marshal side: one direct member replaced by None / by something its type does not accept (the member routine decides
     #      what happens to it - also for None under a member type that is not Optional)
     if spec_n["k"] in ("list", "deque", "vtuple", "tuple", "dict") and len(value) > 0:
@@ -390,7 +435,7 @@ def check_node(p, node, col, feats):
             col.ev()
             col.label(f"shape:{name}")
             col.nt(p.key + path + "shape" + name)
-            o = outcome(tl.unmarshal, T_n, x() if callable(x) else x)
+            o = outcome(tl.unmarshal, T_n, x() if isinstance(x, types.LambdaType) else x)
             if not same_outcome(o, base):
                 col.violation("source-shapes-agree", dict(case_base, shape=name),
                               f"node {path} ({mat.expr(spec_n, None)}): mapping {describe(base)}; {name} {describe(o)}",
